@@ -292,3 +292,94 @@ func (b *Body) nestedEncodings(l *Ledger) {
 		l.add("R-ESCSET", "codec", key, "", Discharged, fmt.Sprintf("%d call(s) inside functions that carry encOpts examined: none re-enters the package's Marshal functions", n), true)
 	}
 }
+
+// closuresWriteCaptures (R-GLOBALS, codec): the encoder functions the codec builds are kept in
+// a package-level cache and called by every goroutine that encodes a value of that type. A
+// function that writes to what it captured (a sort buffer kept in the encoder object "for
+// the next call") makes all those calls share that memory.
+func (b *Body) closuresWriteCaptures(l *Ledger) {
+	if b.Codec == nil {
+		return
+	}
+	n := 0
+	var bad []string
+	badPos := ""
+	var writesThrough func(fn *ssa.Function, root ssa.Value, depth int) string
+	writesThrough = func(fn *ssa.Function, root ssa.Value, depth int) string {
+		if depth > 3 || len(fn.Blocks) == 0 {
+			return ""
+		}
+		why := ""
+		allInstrs(fn, func(i ssa.Instruction) {
+			if why != "" {
+				return
+			}
+			switch x := i.(type) {
+			case *ssa.Store:
+				if x.Addr != root && derivedFrom(x.Addr, root, 0) {
+					why = "store at " + b.posOf(x) + " in " + fname(fn)
+				}
+			case *ssa.MapUpdate:
+				if derivedFrom(x.Map, root, 0) {
+					why = "map update at " + b.posOf(x) + " in " + fname(fn)
+				}
+			case ssa.CallInstruction:
+				g := x.Common().StaticCallee()
+				if g == nil || g.Pkg != b.Codec {
+					return
+				}
+				for ai, a := range x.Common().Args {
+					if ai < len(g.Params) && a == root {
+						if w := writesThrough(g, g.Params[ai], depth+1); w != "" {
+							why = w
+						}
+					}
+				}
+			}
+		})
+		return why
+	}
+	for _, fn := range b.srcFuncs(b.Codec) {
+		allInstrs(fn, func(i ssa.Instruction) {
+			mc, ok := i.(*ssa.MakeClosure)
+			if !ok {
+				return
+			}
+			cf, ok := mc.Fn.(*ssa.Function)
+			if !ok {
+				return
+			}
+			for bi, bnd := range mc.Bindings {
+				if bi >= len(cf.FreeVars) {
+					continue
+				}
+				if _, isPtr := bnd.Type().Underlying().(*types.Pointer); !isPtr {
+					continue // a captured copy: writes to it stay with this closure's own frame
+				}
+				// the captured cell of a local variable of the enclosing function is that
+				// function's business (the hand-over rules of the cache check it); what is
+				// looked for here is a captured *object* the closure mutates
+				if al, isAl := bnd.(*ssa.Alloc); isAl {
+					if _, isNamedT := types.Unalias(derefPtr(al.Type())).(*types.Named); !isNamedT {
+						continue
+					}
+					if tn := derefNamed(al.Type()); tn != nil && tn.Obj().Pkg() != nil && tn.Obj().Pkg().Path() == "sync" {
+						continue
+					}
+				}
+				n++
+				if w := writesThrough(cf, cf.FreeVars[bi], 0); w != "" {
+					bad = append(bad, fmt.Sprintf("the function value made at %s (in %s) writes to the %s it captured: %s — the value is kept in the encoder cache and called from every goroutine, so the captured memory is shared between concurrent calls", b.posOf(mc), fname(fn), typeShort(bnd.Type()), w))
+					badPos = b.posOf(mc)
+				}
+			}
+		})
+	}
+	key := "function values built by the codec do not write to the objects they capture"
+	sort.Strings(bad)
+	if len(bad) > 0 {
+		l.add("R-GLOBALS", "codec", key, badPos, Violated, bad[0], true)
+	} else {
+		l.add("R-GLOBALS", "codec", key, "", Discharged, fmt.Sprintf("%d captured pointer(s) examined: no store or map update through any of them, in the closure or in the codec functions it hands them to", n), true)
+	}
+}
